@@ -205,3 +205,9 @@ func Search(l []int32, k int32) (int, int) {
 	j := sort.Search(len(l)+1, func(x int) bool { return l[x] >= k }) // the predicate can panic at x = len(l)
 	return i, j
 }
+func Widen(b uint32, c uint64) (uint64, uint32, uint64, float32) {
+	f := math.Float32frombits(b)
+	var z float32
+	z = 0
+	return math.Float64bits(float64(f)), math.Float32bits(f), math.Float64bits(math.Float64frombits(c)), z
+}
